@@ -105,7 +105,11 @@ func RunShards[T any](prop, tier string, extraArgs ...string) ([]T, error) {
 				errs[i] = fmt.Errorf("shard %d: %v: %s", i, err, tail(se.String()))
 				return
 			}
-			if err := json.Unmarshal(so.Bytes(), &out[i]); err != nil {
+			payload := so.Bytes()
+			if k := bytes.LastIndex(payload, []byte("\nRESULT ")); k >= 0 {
+				payload = payload[k+8:]
+			}
+			if err := json.Unmarshal(payload, &out[i]); err != nil {
 				errs[i] = fmt.Errorf("shard %d: bad output: %v", i, err)
 			}
 		}(i)
